@@ -412,9 +412,12 @@ impl CompressedResponse {
             None => Vec::new(),
         };
 
+        // `*;q=0` refuses every coding which isn't listed, including identity
         let disable_identity = values
             .iter()
-            .any(|v| v.value == "identity" && v.quality == 0.0);
+            .any(|v| v.value == "identity" && v.quality == 0.0)
+            || (values.iter().any(|v| v.value == "*" && v.quality == 0.0)
+                && !values.iter().any(|v| v.value == "identity"));
 
         if self.compress == CompressPreference::None {
             // We won't compress, so identity is the only option also here.
